@@ -13,7 +13,8 @@ RULE = ('Hypothesis-generated source trees over the whole instruction set (all 9
         'incl. braces/keywords/~). Oracle: bytes returned by compile_script must equal the reference assembler\'s '
         'encoding of the lowered tree; unencodable trees must be rejected; Script.from_src must agree. '
         'non-trivial = (>= 3 instructions or >= 1 block) and >= 1 non-canonical spelling choice; '
-        'distinct = digest of (tree, spelling vector).')
+        'distinct = digest of (tree, spelling vector).'
+        ' Task nesting: all 11 040 two-level nestings of IF / IF_ELSE / TRY / LOOP / DEF x both terminator styles x 5 comment positions x 24 comment bodies; task optimised: every one-byte-operand instruction x 11 decimal values and 300 programs compiled in-process and by a python -O worker (same bytes or both rejected); decimal values on both sides of every byte-length boundary to 17 bytes and around 255 / 256 bytes; the empty string as an s value.')
 ASSUMPTIONS = ['reference assembler vt/refasm.py + lowering rules vt/render.py written from language_spec.md / docs.md',
                'compiler rejections of encodable programs are not violations (property constrains accepted sources); '
                'they are counted per class and bounded by vacuity guards']
